@@ -120,6 +120,7 @@ type VC struct {
 	axiomsUsed []string
 	dispatched map[string]bool
 	anchorHits map[string]int
+	loopDirect map[types.Object]bool // variables directly assigned in the loop being entered
 }
 
 func newVC(w *World, fi *FuncInfo, fc *FuncContract) *VC {
